@@ -239,4 +239,248 @@ theorem remove_panic (s : State) (idx : Nat) (cs : List Char) (h : Holds s cs)
       rw [this]
       simp [decodeFirst]
 
+/-! ## ranges: three-way split at two character positions -/
+
+theorem charPos_split3 {cs : List Char} {a b : Nat} (ha : CharPos cs a) (hb : CharPos cs b) (hab : a ≤ b) :
+    ∃ cs1 cs2 cs3, cs = cs1 ++ cs2 ++ cs3 ∧ (encode cs1).length = a ∧ (encode (cs1 ++ cs2)).length = b := by
+  obtain ⟨x1, y1, h1, rfl⟩ := ha
+  obtain ⟨x2, y2, h2, rfl⟩ := hb
+  rw [h1] at h2
+  rcases List.append_eq_append_iff.1 h2 with ⟨m, hx, hy⟩ | ⟨m, hx, hy⟩
+  · -- x2 = x1 ++ m
+    exact ⟨x1, m, y2, by rw [h1, hy, List.append_assoc], rfl, by rw [hx]⟩
+  · -- x1 = x2 ++ m
+    have hm : m = [] := by
+      apply encode_eq_nil
+      have : (encode x1).length = (encode x2).length + (encode m).length := by
+        rw [hx, encode_append, List.length_append]
+      apply List.eq_nil_of_length_eq_zero; omega
+    subst hm
+    simp only [List.append_nil] at hx
+    subst hx
+    exact ⟨x1, [], y1, by simp [h1], rfl, by simp⟩
+
+/-- the byte pieces of a string holding `cs1 ++ cs2 ++ cs3` -/
+theorem bytes_split3 {s : State} {cs1 cs2 cs3 : List Char} (h : Holds s (cs1 ++ cs2 ++ cs3)) {a b : Nat}
+    (ha : (encode cs1).length = a) (hb : (encode (cs1 ++ cs2)).length = b) :
+    s.bytes.take a = encode cs1 ∧ s.bytes.drop b = encode cs3 ∧
+      (s.bytes.drop a).take (b - a) = encode cs2 ∧ a ≤ b ∧ b ≤ s.len := by
+  have hl := h.len
+  have hbytes := h.2
+  rw [encode_append] at hbytes hl
+  have hb' : b - a = (encode cs2).length := by
+    rw [← hb, ← ha, encode_append, List.length_append]; omega
+  have hab : a ≤ b := by
+    rw [← hb, ← ha, encode_append, List.length_append]; omega
+  refine ⟨?_, ?_, ?_, hab, ?_⟩
+  · rw [hbytes, ← ha, encode_append, List.append_assoc, List.take_left]
+  · rw [hbytes, ← hb, List.drop_left]
+  · rw [hb', hbytes, encode_append, ← ha, List.append_assoc, List.drop_left, List.take_left]
+  · rw [hl, List.length_append, hb]; omega
+
+theorem boundaryOk_false {s : State} {cs : List Char} (h : Holds s cs) {i : Nat} (hn : ¬ CharPos cs i) :
+    boundaryOk s i = false := by
+  cases hbb : boundaryOk s i with
+  | false => rfl
+  | true => exact absurd ((boundaryOk_iff h i).1 hbb) hn
+
+/-! ## drain -/
+
+theorem drain_ok (s : State) (sb eb : Bound) (k a b : Nat) (cs1 cs2 cs3 : List Char)
+    (h : Holds s (cs1 ++ cs2 ++ cs3)) (hr : sliceRange sb eb s.len = some (a, b))
+    (ha : (encode cs1).length = a) (hb : (encode (cs1 ++ cs2)).length = b) :
+    ∃ s', drain s sb eb k = .ok (cs2.take k) s' ∧ Holds s' (cs1 ++ cs3) ∧ s'.buf.length = s.buf.length := by
+  obtain ⟨h1, h3, h2, hab, hbl⟩ := bytes_split3 h ha hb
+  unfold drain
+  rw [hr]
+  have hba : boundaryOk s a = true := (boundaryOk_iff h a).2 ⟨cs1, cs2 ++ cs3, by simp, ha⟩
+  have hbb : boundaryOk s b = true := (boundaryOk_iff h b).2 ⟨cs1 ++ cs2, cs3, rfl, hb⟩
+  simp only [hba, hbb, Bool.not_true, Bool.false_eq_true, ↓reduceIte]
+  rw [h2, decode_encode]
+  simp only
+  rw [if_pos ⟨hab, hbl⟩]
+  obtain ⟨s', hd, hw, hbytes, hcap⟩ := vecDrainDrop_spec s a b h.1 hab hbl
+  rw [hd]
+  exact ⟨s', rfl, ⟨hw, by rw [hbytes, h1, h3, encode_append]⟩, hcap⟩
+
+theorem drain_panic (s : State) (sb eb : Bound) (k : Nat) (cs : List Char) (h : Holds s cs)
+    (hp : sliceRange sb eb s.len = none ∨
+          ∃ a b, sliceRange sb eb s.len = some (a, b) ∧ (¬ CharPos cs a ∨ ¬ CharPos cs b)) :
+    drain s sb eb k = .panic s := by
+  unfold drain
+  rcases hp with hn | ⟨a, b, hr, hab⟩
+  · rw [hn]
+  · rw [hr]
+    simp only
+    by_cases ha : CharPos cs a
+    · have hb : ¬ CharPos cs b := by
+        rcases hab with h1 | h1
+        · exact absurd ha h1
+        · exact h1
+      rw [(boundaryOk_iff h a).2 ha, boundaryOk_false h hb]; rfl
+    · rw [boundaryOk_false h ha]; rfl
+
+/-! ## replace_range, extend_from_within -/
+
+theorem replaceRange_ok (fixed : Bool) (s : State) (sb eb : Bound) (t : List Char) (a b : Nat)
+    (cs1 cs2 cs3 : List Char) (h : Holds s (cs1 ++ cs2 ++ cs3)) (hr : sliceRange sb eb s.len = some (a, b))
+    (ha : (encode cs1).length = a) (hb : (encode (cs1 ++ cs2)).length = b) :
+    GrowsToText fixed s ((encode t).length - (encode cs2).length) (replaceRange fixed s sb eb (encode t))
+      (cs1 ++ t ++ cs3) := by
+  obtain ⟨h1, h3, h2, hab, hbl⟩ := bytes_split3 h ha hb
+  have hba : boundaryOk s a = true := (boundaryOk_iff h a).2 ⟨cs1, cs2 ++ cs3, by simp, ha⟩
+  have hbb : boundaryOk s b = true := (boundaryOk_iff h b).2 ⟨cs1 ++ cs2, cs3, rfl, hb⟩
+  have hl : (encode cs2).length = b - a := by
+    rw [← hb, ← ha, encode_append, List.length_append]; omega
+  rw [hl]
+  exact (replaceRange_bytes fixed s sb eb (encode t) a b h.1 hr hba hbb).text (cs := cs1 ++ t ++ cs3)
+    (by rw [h1, h3, encode_append, encode_append])
+
+theorem replaceRange_panic (fixed : Bool) (s : State) (sb eb : Bound) (str : Bytes) (cs : List Char) (h : Holds s cs)
+    (hp : sliceRange sb eb s.len = none ∨
+          ∃ a b, sliceRange sb eb s.len = some (a, b) ∧ (¬ CharPos cs a ∨ ¬ CharPos cs b)) :
+    replaceRange fixed s sb eb str = .panic s := by
+  unfold replaceRange
+  rcases hp with hn | ⟨a, b, hr, hab⟩
+  · rw [hn]
+  · rw [hr]
+    simp only
+    by_cases ha : CharPos cs a
+    · have hb : ¬ CharPos cs b := by
+        rcases hab with h1 | h1
+        · exact absurd ha h1
+        · exact h1
+      rw [(boundaryOk_iff h a).2 ha, boundaryOk_false h hb]; rfl
+    · rw [boundaryOk_false h ha]; rfl
+
+theorem extendFromWithin_ok (fixed : Bool) (s : State) (sb eb : Bound) (a b : Nat)
+    (cs1 cs2 cs3 : List Char) (h : Holds s (cs1 ++ cs2 ++ cs3)) (hr : sliceRange sb eb s.len = some (a, b))
+    (ha : (encode cs1).length = a) (hb : (encode (cs1 ++ cs2)).length = b) :
+    GrowsToText fixed s (encode cs2).length (extendFromWithin fixed s sb eb) (cs1 ++ cs2 ++ cs3 ++ cs2) := by
+  obtain ⟨h1, h3, h2, hab, hbl⟩ := bytes_split3 h ha hb
+  have hba : boundaryOk s a = true := (boundaryOk_iff h a).2 ⟨cs1, cs2 ++ cs3, by simp, ha⟩
+  have hbb : boundaryOk s b = true := (boundaryOk_iff h b).2 ⟨cs1 ++ cs2, cs3, rfl, hb⟩
+  have hl : (encode cs2).length = b - a := by
+    rw [← hb, ← ha, encode_append, List.length_append]; omega
+  rw [hl]
+  exact (extendFromWithin_bytes fixed s sb eb a b h.1 hr hba hbb).text (cs := cs1 ++ cs2 ++ cs3 ++ cs2)
+    (by rw [h2, h.2, encode_append (cs1 ++ cs2 ++ cs3)])
+
+theorem extendFromWithin_panic (fixed : Bool) (s : State) (sb eb : Bound) (cs : List Char) (h : Holds s cs)
+    (hp : sliceRange sb eb s.len = none ∨
+          ∃ a b, sliceRange sb eb s.len = some (a, b) ∧ (¬ CharPos cs a ∨ ¬ CharPos cs b)) :
+    extendFromWithin fixed s sb eb = .panic s := by
+  unfold extendFromWithin
+  rcases hp with hn | ⟨a, b, hr, hab⟩
+  · rw [hn]
+  · rw [hr]
+    simp only
+    by_cases ha : CharPos cs a
+    · have hb : ¬ CharPos cs b := by
+        rcases hab with h1 | h1
+        · exact absurd ha h1
+        · exact h1
+      rw [(boundaryOk_iff h a).2 ha, boundaryOk_false h hb]; rfl
+    · rw [boundaryOk_false h ha]; rfl
+
+/-! ## split_off -/
+
+theorem splitOff_ok (f : Bool) (s : State) (sb eb : Bound) (a b : Nat) (cs1 cs2 cs3 : List Char)
+    (h : Holds s (cs1 ++ cs2 ++ cs3)) (hr : sliceRange sb eb s.len = some (a, b))
+    (ha : (encode cs1).length = a) (hb : (encode (cs1 ++ cs2)).length = b) :
+    ∃ o s', splitOff f s sb eb = .ok o s' ∧ Holds o cs2 ∧ Holds s' (cs1 ++ cs3) ∧ o.cap + s'.cap = s.cap := by
+  obtain ⟨h1, h3, h2, hab, hbl⟩ := bytes_split3 h ha hb
+  have hba : boundaryOk s a = true := (boundaryOk_iff h a).2 ⟨cs1, cs2 ++ cs3, by simp, ha⟩
+  have hbb : boundaryOk s b = true := (boundaryOk_iff h b).2 ⟨cs1 ++ cs2, cs3, rfl, hb⟩
+  obtain ⟨o, s', hs, hwo, hws, hbo, hbs, hcap⟩ := splitOff_bytes f s sb eb a b h.1 hr hba hbb
+  exact ⟨o, s', hs, ⟨hwo, by rw [hbo, h2]⟩, ⟨hws, by rw [hbs, h1, h3, encode_append]⟩, hcap⟩
+
+theorem splitOff_panic_range (f : Bool) (s : State) (sb eb : Bound) (hn : sliceRange sb eb s.len = none) :
+    splitOff f s sb eb = .panic s := by
+  unfold splitOff; simp only [hn]
+
+theorem holds_boundary_zero {s : State} {cs : List Char} (h : Holds s cs) : boundaryOk s 0 = true :=
+  (boundaryOk_iff h 0).2 (charPos_zero cs)
+
+theorem holds_boundary_len {s : State} {cs : List Char} (h : Holds s cs) : boundaryOk s s.len = true := by
+  rw [boundaryOk_iff h, h.len]; exact charPos_len cs
+
+/-- the repaired order (assertions before the `start == end` return) -/
+theorem splitOff_panic_fixed (s : State) (sb eb : Bound) (a b : Nat) (cs : List Char) (h : Holds s cs)
+    (hr : sliceRange sb eb s.len = some (a, b)) (hp : ¬ CharPos cs a ∨ ¬ CharPos cs b) :
+    splitOff true s sb eb = .panic s := by
+  unfold splitOff
+  simp only [hr]
+  by_cases h1 : b = s.len
+  · rw [if_pos h1]
+    have hb : CharPos cs b := by rw [h1, h.len]; exact charPos_len cs
+    have ha : ¬ CharPos cs a := by
+      rcases hp with hp | hp
+      · exact hp
+      · exact absurd hb hp
+    rw [boundaryOk_false h ha]; rfl
+  · rw [if_neg h1]
+    by_cases h2 : a = 0
+    · rw [if_pos h2]
+      have ha : CharPos cs a := by rw [h2]; exact charPos_zero cs
+      have hb : ¬ CharPos cs b := by
+        rcases hp with hp | hp
+        · exact absurd ha hp
+        · exact hp
+      rw [boundaryOk_false h hb]; rfl
+    · rw [if_neg h2]
+      simp only [Bool.not_true, Bool.false_and, Bool.false_eq_true, ↓reduceIte]
+      by_cases ha : CharPos cs a
+      · have hb : ¬ CharPos cs b := by
+          rcases hp with hp | hp
+          · exact absurd ha hp
+          · exact hp
+        rw [(boundaryOk_iff h a).2 ha, boundaryOk_false h hb]; rfl
+      · rw [boundaryOk_false h ha]; rfl
+
+/-- the order before the fix: the same, EXCEPT for an empty range strictly inside the string -/
+theorem splitOff_panic_asis (s : State) (sb eb : Bound) (a b : Nat) (cs : List Char) (h : Holds s cs)
+    (hr : sliceRange sb eb s.len = some (a, b)) (hp : ¬ CharPos cs a ∨ ¬ CharPos cs b)
+    (hne : ¬ (a = b ∧ a ≠ 0 ∧ b ≠ s.len)) :
+    splitOff false s sb eb = .panic s := by
+  unfold splitOff
+  simp only [hr]
+  by_cases h1 : b = s.len
+  · rw [if_pos h1]
+    have hb : CharPos cs b := by rw [h1, h.len]; exact charPos_len cs
+    have ha : ¬ CharPos cs a := by
+      rcases hp with hp | hp
+      · exact hp
+      · exact absurd hb hp
+    rw [boundaryOk_false h ha]; rfl
+  · rw [if_neg h1]
+    by_cases h2 : a = 0
+    · rw [if_pos h2]
+      have ha : CharPos cs a := by rw [h2]; exact charPos_zero cs
+      have hb : ¬ CharPos cs b := by
+        rcases hp with hp | hp
+        · exact absurd ha hp
+        · exact hp
+      rw [boundaryOk_false h hb]; rfl
+    · rw [if_neg h2]
+      have h3 : ¬ a = b := fun h3 => hne ⟨h3, h2, h1⟩
+      simp only [Bool.not_false, Bool.true_and, decide_eq_true_eq, h3, ↓reduceIte]
+      by_cases ha : CharPos cs a
+      · have hb : ¬ CharPos cs b := by
+          rcases hp with hp | hp
+          · exact absurd ha hp
+          · exact hp
+        rw [(boundaryOk_iff h a).2 ha, boundaryOk_false h hb]; rfl
+      · rw [boundaryOk_false h ha]; rfl
+
+/-- finding C09-a (order before the fix): an empty range strictly inside the string returns the
+    empty string and leaves the string alone, whether or not the index is on a character boundary -/
+theorem splitOff_asis_empty (s : State) (sb eb : Bound) (a : Nat)
+    (hr : sliceRange sb eb s.len = some (a, a)) (h0 : a ≠ 0) (hl : a ≠ s.len) :
+    splitOff false s sb eb = .ok { buf := [], len := 0 } s := by
+  unfold splitOff
+  simp only [hr]
+  rw [if_neg hl, if_neg h0]
+  simp
+
 end Str
